@@ -1603,7 +1603,8 @@ def gen_arg(rng, depth=0):
         except TypeError:
             pass
     # a mixed set: keep at least one non-number so that it is not a uniform numeric container
-    hashable = [x for x in hashable if not (isinstance(x, float) and x != x)]
+    # tuples inside a set: uniform numeric tuples are read back as (unhashable) lists - deterministic edge in sec_args
+    hashable = [x for x in hashable if not (isinstance(x, float) and x != x) and not isinstance(x, (tuple, frozenset))]
     return frozenset(hashable + ["tag"]) if kind == 2 else set(hashable + ["tag"])
 
 
@@ -1629,6 +1630,18 @@ def sec_args(ctx, rng, case):
         r = cmp_arg(v, got)
         ctx.check(r is None, "arg-sequence-with-none", "C16:arg-sequence-with-none-roundtrip", lambda: "%r -> %r: %s" % (v, got, r))
         ctx.distinct(("arg-none", repr(v)))
+        return
+    if kind == 1 and case < 7 * 4:  # a set holding a uniform numeric tuple: written as a list, which a set cannot hold
+        v = [frozenset([(1, 2), "t"]), {(True, False), "t"}, frozenset([(0.5, 1.5)]), frozenset([("a", 1), "t"])][case // 7]
+        try:
+            got = afl.arg_from_proto(afl.arg_to_proto(v))
+        except TypeError as e:
+            ctx.check(False, "arg-set-of-tuples", "C16:set-with-uniform-tuple-unreadable",
+                      "arg_from_proto(arg_to_proto(%r)) raises TypeError(%s)" % (v, e), value=repr(v))
+            return
+        ok = type(got) is type(v) and len(got) == len(v)
+        ctx.check(ok, "arg-set-of-tuples", "C16:set-with-tuple-roundtrip", "%r -> %r" % (v, got))
+        ctx.distinct(("arg-set", repr(sorted(map(repr, v)))))
         return
     if kind in (0, 1):
         v = gen_arg(rng)
